@@ -48,20 +48,30 @@ impl Config {
     /// (min, max) for positive answers of this type.
     pub fn positive(&self, rtype: u16) -> (u64, u64) {
         let b = self.bounds_for(rtype);
-        (b.pos_min.unwrap_or(0), b.pos_max.unwrap_or(DEFAULT_MAX_SECS))
+        let min = b.pos_min.unwrap_or(0);
+        // an unset maximum is the built-in default, which cannot undercut a CONFIGURED minimum
+        (min, b.pos_max.unwrap_or(DEFAULT_MAX_SECS.max(min)))
     }
     /// (min, max) for negative answers to queries of this type.
     pub fn negative(&self, rtype: u16) -> (u64, u64) {
         let b = self.bounds_for(rtype);
-        (b.neg_min.unwrap_or(0), b.neg_max.unwrap_or(DEFAULT_MAX_SECS))
+        let min = b.neg_min.unwrap_or(0);
+        (min, b.neg_max.unwrap_or(DEFAULT_MAX_SECS.max(min)))
     }
     /// The statement only speaks about bounds with min <= max.
+    /// `min_above_default_max`: a configured minimum above one day with no configured maximum.
     pub fn well_formed(&self) -> bool {
+        // only an EXPLICIT maximum below the minimum is malformed
         let ok = |b: &Bounds| {
-            b.pos_min.unwrap_or(0) <= b.pos_max.unwrap_or(DEFAULT_MAX_SECS)
-                && b.neg_min.unwrap_or(0) <= b.neg_max.unwrap_or(DEFAULT_MAX_SECS)
+            b.pos_max.map(|mx| b.pos_min.unwrap_or(0) <= mx).unwrap_or(true) && b.neg_max.map(|mx| b.neg_min.unwrap_or(0) <= mx).unwrap_or(true)
         };
         ok(&self.default) && self.by_type.iter().all(|(_, b)| ok(b))
+    }
+    pub fn min_above_default_max(&self) -> bool {
+        let f = |b: &Bounds| {
+            (b.pos_max.is_none() && b.pos_min.unwrap_or(0) > DEFAULT_MAX_SECS) || (b.neg_max.is_none() && b.neg_min.unwrap_or(0) > DEFAULT_MAX_SECS)
+        };
+        f(&self.default) || self.by_type.iter().any(|(_, b)| f(b))
     }
 }
 
